@@ -179,3 +179,19 @@ def isExhStrideM (T : ITy) (es ss : List Int) : M Bool :=
       pure (V.eq ⟨T, span2⟩ ⟨T, T.wrap sz.v⟩)
 
 end Mdspan
+
+namespace Mdspan
+/-! ### the debug-only stride walk of `layout_left/right::mapping(layout_stride::mapping const&)` -/
+
+/-- `index_type stride = 1; for r: if (common_t(stride) != common_t(other.stride(r))) abort(); stride *= extent(r);`
+    `T` = target index type, `U` = source index type; `true` = `std::abort()` -/
+def walkGoM (T U : ITy) (stride : Int) : List Int → List Int → M Bool
+  | e :: es, s :: ss =>
+    if !(V.eq ⟨T, stride⟩ ⟨U, s⟩) then pure true else do
+      let m ← V.mul ⟨T, stride⟩ ⟨T, e⟩
+      walkGoM T U (narrow T m) es ss
+  | _, _ => pure false
+def walkLeftM (T U : ITy) (es ss : List Int) : M Bool := walkGoM T U 1 es ss
+/-- layout_right walks from the last dimension to the first -/
+def walkRightM (T U : ITy) (es ss : List Int) : M Bool := walkGoM T U 1 es.reverse ss.reverse
+end Mdspan
